@@ -56,6 +56,26 @@ var bwMode bool
 // that stamps an option on the response message before the handler runs
 var handlerMode string
 
+// callCodes (`srvn` lines): the handler calls SetResponse once per code, in this order (nil: once, with the line's code)
+var callCodes []codes.Code
+
+// setCalls makes the handler's SetResponse call(s) and reports their outcomes ("accepted" / "refused", comma separated)
+func setCalls(code codes.Code, set func(codes.Code) error) string {
+	cs := callCodes
+	if cs == nil {
+		cs = []codes.Code{code}
+	}
+	var out []string
+	for _, c := range cs {
+		if err := set(c); err != nil {
+			out = append(out, "refused")
+		} else {
+			out = append(out, "accepted")
+		}
+	}
+	return strings.Join(out, ",")
+}
+
 func muxHandler(code codes.Code, set *string) mux.Handler {
 	r := mux.NewRouter()
 	if handlerMode == "mw" {
@@ -70,11 +90,7 @@ func muxHandler(code codes.Code, set *string) mux.Handler {
 		for _, id := range handlerMutates {
 			req.SetOptionBytes(id, []byte{0x68, byte(id)})
 		}
-		if err := w.SetResponse(code, message.TextPlain, nil); err != nil {
-			*set = "refused"
-		} else {
-			*set = "accepted"
-		}
+		*set = setCalls(code, func(c codes.Code) error { return w.SetResponse(c, message.TextPlain, nil) })
 	}))
 	return r
 }
@@ -155,11 +171,7 @@ func srvUDPOnce(t *testing.T, con bool, v int64, code codes.Code, coincidence *b
 				for _, id := range handlerMutates {
 					r.SetOptionBytes(id, []byte{0x68, byte(id)})
 				}
-				if err := w.SetResponse(code, message.TextPlain, nil); err != nil {
-					set = "refused"
-				} else {
-					set = "accepted"
-				}
+				set = setCalls(code, func(c codes.Code) error { return w.SetResponse(c, message.TextPlain, nil) })
 			}
 		}})
 		if err := cc.Process(nil, buildReq(true, con, v, extra...)); err != nil {
@@ -205,11 +217,7 @@ func srvTCP(t *testing.T, v int64, code codes.Code, extra ...message.OptionID) (
 				for _, id := range handlerMutates {
 					r.SetOptionBytes(id, []byte{0x68, byte(id)})
 				}
-				if err := w.SetResponse(code, message.TextPlain, nil); err != nil {
-					set = "refused"
-				} else {
-					set = "accepted"
-				}
+				set = setCalls(code, func(c codes.Code) error { return w.SetResponse(c, message.TextPlain, nil) })
 			}
 		}})
 		if err != nil {
@@ -270,11 +278,7 @@ func srvReal(multi, con bool, v int64, code codes.Code) (line string) {
 			}
 			mu.Lock()
 			defer mu.Unlock()
-			if err := w.SetResponse(code, message.TextPlain, nil); err != nil {
-				set = "refused"
-			} else {
-				set = "accepted"
-			}
+			set = setCalls(code, func(c codes.Code) error { return w.SetResponse(c, message.TextPlain, nil) })
 		}))
 	served := make(chan struct{})
 	go func() { _ = s.Serve(l); close(served) }()
@@ -448,6 +452,23 @@ func TestC20(t *testing.T) {
 				o = strings.Fields(o + " - -")[1]
 			}
 			fmt.Fprintln(w, o)
+		case len(f) == 5 && f[0] == "srvn":
+			// srvn <udp|tcp> <con|non> <v|-> <c1,c2,…>: the handler calls SetResponse once per code
+			handlerMutates, badLength, callCodes = nil, nil, nil
+			for _, e := range strings.Split(f[4], ",") {
+				c, _ := strconv.ParseUint(e, 10, 16)
+				callCodes = append(callCodes, codes.Code(c))
+			}
+			v := int64(-1)
+			if f[3] != "-" {
+				v, _ = strconv.ParseInt(f[3], 10, 64)
+			}
+			if f[1] == "udp" {
+				fmt.Fprintln(w, srvUDP(t, f[2] == "con", v, callCodes[0]))
+			} else {
+				fmt.Fprintln(w, srvTCP(t, v, callCodes[0]))
+			}
+			callCodes = nil
 		case (len(f) == 5 || len(f) == 6) && f[0] == "srv":
 			var extra []message.OptionID
 			handlerMutates = nil
